@@ -251,6 +251,7 @@ func init() {
 			{Scenario: "srv.join", Params: vx.P("conns", "0.1,0.1,0.1", "cap", "1"), Bound: b(2, 3), Weight: 9},
 			{Scenario: "srv.join", Params: vx.P("conns", "0.1,0.2", "cap", "0"), Bound: b(2, 3), Weight: 4},
 			{Scenario: "srv.join", Params: vx.P("conns", "0.3,0.3", "pre", "0.1,0.2", "cap", "2", "closer", "0.1"), Bound: b(2, 3), Weight: 9},
+			{Scenario: "srv.join", Params: vx.P("conns", "0.3,0.3", "pre", "0.1,0.2", "cap", "3", "closer", "0.1"), Bound: b(2, 3), Weight: 9},
 			{Scenario: "srv.join", Params: vx.P("conns", "0.1,0.2", "cap", "1", "db", "bolt"), Bound: b(1, 2), Weight: 7},
 			{Scenario: "srv.join", Params: vx.P("conns", "0.1,0.2,0.3", "cap", "2", "db", "bolt"), Bound: b(1, 2), Weight: 8},
 			{Scenario: "srv.join", Params: vx.P("conns", "0.1,0.2", "cap", "0", "db", "bolt"), Bound: b(1, 2), Weight: 5},
